@@ -267,6 +267,21 @@ impl UnitRunner for C03 {
               }
             }
           }
+          // the same index given through variables (scalar, vector and mask positions; ranges and ':' stay spelled out) must read the same
+          if ki == 0 && !matches!(o, Outcome::Panic(_)) {
+            let via = |ix: &Ix, name: String, s: &mut Session| -> Option<String> { match ix { Ix::S(_) | Ix::V(_) | Ix::M(_) => { if s.run(&format!("{} := {}", name, ix.text())).is_value() { Some(name) } else { None } } _ => Some(ix.text()) } };
+            let ta = via(a, format!("i{}a", n), &mut s);
+            let tb = match b { Some(b) => via(b, format!("i{}b", n), &mut s).map(Some), None => Some(None) };
+            let any_var = matches!(a, Ix::S(_) | Ix::V(_) | Ix::M(_)) || b.as_ref().map(|b| matches!(b, Ix::S(_) | Ix::V(_) | Ix::M(_))).unwrap_or(false);
+            if let (Some(ta), Some(tb), true) = (ta, tb, any_var) {
+              out.evaluations += 1;
+              let text = match &tb { Some(tb) => format!("{},{}", ta, tb), None => ta.clone() };
+              let ov = s.run(&format!("v{} := x[{}]", n, text));
+              let same = match (&o, &ov) { (Outcome::Value(x), Outcome::Value(y)) => x == y, (Outcome::Value(_), _) | (_, Outcome::Value(_)) => false, (_, Outcome::Panic(_)) => false, _ => true };
+              if same { out.count("index_through_variables_agrees"); if ov.is_value() { out.nontrivial += 1; } }
+              else { out.fail(format!("C03|index-through-variable-differs|{}", locus), format!("{}; index {} given as variables", def, idx_text), format!("spelled out {}, through variables {}", o.short(), ov.short())); }
+            }
+          }
           if unit % 13 == 0 && n == 0 && ki == 0 && shape == (3, 3) { out.sample(json!({"program": format!("{}; r := x[{}]", def, idx_text), "observed": o.short()})); }
         }
         if s.get("x").as_ref() != Some(&cx) {
